@@ -95,6 +95,9 @@ def check_fold(chk, rule, where, kf, what, *, kind, term=None, sense=None, init_
         probs.append("is a %s fold, specification requires %s" % (kf.kind, kind))
     else:
         ext = kf.of if kind in ("ARGSET", "ARG") else kf
+        if getattr(ext, "band", None) is not None:
+            probs.append("the running optimum is replaced under `%s`, a comparison within a tolerance band rather than an exact comparison of keys: "
+                         "such a relation is not transitive, so the selected set depends on the order of the transitions" % show(ext.band))
         if sense and ext.sense != sense:
             probs.append("takes the %s where the %s is required" % (ext.sense, sense))
         t = ext.term if kind in ("ARGSET", "ARG") else kf.term
